@@ -535,7 +535,10 @@ REQUIRED_THEOREMS = [
 ]
 RULE = ("all lengths 0..40 x {4 operators x every one of the 11 operator forms of Vector and of Matrix (owned/borrowed, vector, "
         "scalar-left, scalar-right, assign; all 11 in both tiers), negation, 29 unary maps, powi (exponents 0,1,2,3,-1,-2,5,..), powf, 7 reductions}, "
-        "then random lengths up to 1e4; threshold-band strata: logsumexp/logmeanexp (free + Vector method) with maxima in "
+        "then random lengths up to 1e4; long inputs built from a compact description on both sides (small integers: exact oracle) at lengths "
+        "16384, 16385, 16391, 20000, 32769, 50000, 65543, 100000, 131079 (thorough: 2^k, 2^k+-1, 2^k+-7 for k = 12..17, 20000, 50000, "
+        "100000, 300000) for every reduction (sum, norm x3 routes, prod, max, logsumexp, logmeanexp, dot free + Vector::dot, Matrix::inf_norm) "
+        "and a sample of element-wise kernels (digest of the result); threshold-band strata: logsumexp/logmeanexp (free + Vector method) with maxima in "
         "[690, 709.78], in the underflow band [-745.2, -690], straddling +-709, lengths 1..300; map arguments at the "
         "overflow/underflow/tiny-argument thresholds of exp, exp2, exp_m1, ln_1p, sinh, cosh, ...; special-entry mixes for logsumexp / "
         "logmeanexp at lengths 1..20 (only NaN, only -inf, NaN with -inf, -inf with finite, +inf with finite, NaN with finite, all kinds; "
@@ -1029,6 +1032,82 @@ def sweep_lines(rng, quick, cover):
     return out
 
 
+# ---------------------------------------------------------------------------- long inputs (`long` requests)
+# Operands are built on both sides from `<kind> <seed> <n>` (exec/src/bin/c04.rs gen_data, Drv/C04.lean genData, `long_data` here),
+# so a 131079-element request is a 40-byte line.  Data are small integers: every partial sum / product is an integer below 2^53, so
+# the exact value is the only admissible float result whatever the association (blocked, unrolled, pairwise ...).
+LONG_KINDS = ["ones", "iota", "hash", "pm1"]
+M64 = (1 << 64) - 1
+
+
+def long_data(kind, seed, n):
+    import numpy as np
+    i = np.arange(n, dtype=np.uint64)
+    if kind == "ones":
+        return np.ones(n)
+    if kind == "iota":
+        return (i % np.uint64(17)).astype(np.float64) - 8.0
+    with np.errstate(over="ignore"):
+        z = np.uint64(seed) + i * np.uint64(0x9E3779B97F4A7C15)
+        z = (z ^ (z >> np.uint64(30))) * np.uint64(0xBF58476D1CE4E5B9)
+        z = (z ^ (z >> np.uint64(27))) * np.uint64(0x94D049BB133111EB)
+        z = z ^ (z >> np.uint64(31))
+    if kind == "hash":
+        return (z % np.uint64(13)).astype(np.float64) - 6.0
+    if kind == "pm1":
+        return np.where((z >> np.uint64(40)) & np.uint64(1) == 1, -1.0, 1.0)
+    raise ValueError(kind)
+
+
+def long_digest(r):
+    import numpy as np
+    n = len(r)
+    with np.errstate(over="ignore"):
+        h = int((r.view(np.uint64) * (np.uint64(2) * np.arange(n, dtype=np.uint64) + np.uint64(1))).sum(dtype=np.uint64))
+    return "%d %016x %s %s" % (n, h & M64, f2h(float(r[0])) if n else "-", f2h(float(r[-1])) if n else "-")
+
+
+LONG_EW = ["vadd", "vsub", "vmul", "svmul", "svsub", "vssub", "vsdiv", "asgadd", "asgsmul", "abs", "powi3", "powi2", "neg", "mmadd"]
+
+
+def long_lengths(quick, rng):
+    if quick:
+        return [16384, 16385, 16391, 20000, 32769, 50000, 65543, 100000, 131079]
+    ls = []
+    for k in range(12, 18):
+        ls += [2 ** k + d for d in (0, 1, -1, 7, -7)]
+    return ls + [20000, 50000, 100000, 300000, rng.randint(16385, 200000), rng.randint(16385, 200000)]
+
+
+def long_lines(rng, quick, cover):
+    out = []
+    for li, n in enumerate(long_lengths(quick, rng)):
+        sd = lambda: rng.randint(0, 10 ** 9)
+        forms = ["free", "meth", "mat"]
+        out.append("long red sum %s %s %d %d" % (forms[li % 3], rng.choice(["iota", "hash", "ones"]), sd(), n))
+        for f in forms:
+            out.append("long red norm %s %s %d %d" % (f, rng.choice(["hash", "ones", "iota"]), sd(), n))
+        out.append("long red prod %s pm1 %d %d" % (forms[(li + 1) % 3], sd(), n))
+        out.append("long red max %s hash %d %d" % (forms[(li + 2) % 3], sd(), n))
+        out.append("long red logsumexp %s ones 0 %d" % (["free", "meth"][li % 2], n))
+        out.append("long red logsumexp %s hash %d %d" % (["meth", "free"][li % 2], sd(), n))
+        out.append("long red logmeanexp %s hash %d %d" % (["free", "meth"][li % 2], sd(), n))
+        out.append("long dot free hash %d iota %d %d" % (sd(), sd(), n))
+        out.append("long dot meth ones 0 ones 0 %d" % n)
+        out.append("long dot %s pm1 %d hash %d %d" % (["free", "meth"][li % 2], sd(), sd(), n))
+        r = next(d for d in (64, 8, 5, 3, 1) if n % d == 0)
+        out.append("long infnorm meth %d hash %d %d" % (r, sd(), n))
+        ops = LONG_EW if not quick else [LONG_EW[(li * 3 + j) % len(LONG_EW)] for j in range(3)]
+        for op in ops:
+            out.append("long ew %s hash %d %s %d %d" % (op, sd(), rng.choice(["iota", "pm1", "hash"]), sd(), n))
+        if not quick:
+            out.append("long red sum free hash %d %d" % (sd(), n))
+            out.append("long red sum meth iota 0 %d" % n)
+        cover["long_lengths"] = cover.get("long_lengths", 0) + 1
+    cover["long_lines"] = len(out)
+    return out
+
+
 def add_tables(lines):
     """`map f <operand>` for the functions Lean cannot reproduce bit-wise -> `mapt f <operand> <table>`, where the
     table holds the scalar results f(x[i]) computed by the Rust scalar method (executor op `scal`)."""
@@ -1084,6 +1163,9 @@ def corpus():
         "red logsumexp free %s" % V([NAN]), "red logsumexp meth %s" % V([NAN, NAN]), "red logsumexp free %s" % V([-INF, NAN]),
         "red logmeanexp free %s" % V([NAN, -INF, NAN]), "red logsumexp free %s" % V([NAN, 1.0, -INF]),
         "red logsumexp free %s" % V([-INF, -INF]), "red logmeanexp meth %s" % V([INF, 1.0]), "red logsumexp meth %s" % V([-INF]),
+        # long inputs (seeded change C04w: a blocked `dot` dropping the final partial block of 16384)
+        "long dot free ones 0 ones 0 20000", "long dot meth ones 0 ones 0 20000", "long red norm meth ones 0 20000",
+        "long red norm mat ones 0 16385", "long red sum free ones 0 20000",
         "red max free %s" % V([0.0, -0.0]), "red max free %s" % V([-0.0, 0.0]), "red max free %s" % V([NAN, -0.0, NAN, 0.0]),
     ]
 
@@ -1105,6 +1187,7 @@ def gen(rng, tier):
         if not quick:
             lines += red_lines(rng, n, cover)
     lines += lse_special_lines(rng, cover, 1 if quick else 3)
+    lines += long_lines(rng, quick, cover)
     lines += sweep_lines(rng, quick, cover)
     lines += special_pow_lines(rng, cover, 1 if quick else 4)
     lines += special_map_lines(rng, cover)
@@ -1151,6 +1234,8 @@ def nontrivial(line, reply):
     if not reply.startswith("="):
         return None
     t = line.split()
+    if t[0] == "long":
+        return " ".join(x for x in t if not x.isdigit() or x == t[-1])
     kinds = [x for x in t if x in ("v", "m", "s")]
     if t[0] in ("bin", "asg"):
         n = len(reply.split("|")[0].split())
@@ -1386,9 +1471,10 @@ def check_reduction(name, xs, got_tok, n_nominal=None):
         mpmath.mp.dps = 40
         m = max(xs)
         ssum = mpmath.mpf(0)
-        for v in xs:
+        import collections
+        for v, cnt in collections.Counter(xs).items():
             if v - m > -200:
-                ssum += mpmath.exp(mpmath.mpf(v) - mpmath.mpf(m))
+                ssum += cnt * mpmath.exp(mpmath.mpf(v) - mpmath.mpf(m))
         ref = mpmath.log(ssum) + mpmath.mpf(m)
         if name == "logmeanexp":
             ref -= mpmath.log(n)
@@ -1429,6 +1515,56 @@ def oracle(lines, impl):
         if st == "skip":
             continue
         kind = t[0]
+        if kind == "long":
+            sub = t[1]
+            n = int(t[-1])
+            key = "long:%s:%s:n%d" % (sub, t[2], n)
+            if st != "ok":
+                fail(i, key, "%s: %s instead of a value" % (" ".join(t[:4]), st))
+                continue
+            if sub == "red":
+                name, form = t[2], t[3]
+                d = long_data(t[4], int(t[5]), n)
+                if name in ("logsumexp", "logmeanexp"):
+                    msg = check_reduction(name, [float(v) for v in d], toks[0])
+                else:
+                    ints = d.astype("int64")
+                    if name == "sum":
+                        e = float(int(ints.sum()))
+                    elif name == "norm":
+                        e = math.sqrt(float(int((ints * ints).sum())))
+                    elif name == "prod":
+                        e = -1.0 if int((ints < 0).sum()) % 2 else 1.0
+                    else:
+                        e = float(ints.max())
+                    msg = None if toks[0] == f2h(e) else "%s of %d small integers (%s) is %s = %r, the exact value is %s = %r" % (
+                        name, n, t[4], toks[0], h2f(toks[0]), f2h(e), e)
+                if msg:
+                    fail(i, key, msg)
+            elif sub == "dot":
+                a = long_data(t[3], int(t[4]), n).astype("int64")
+                b = long_data(t[5], int(t[6]), n).astype("int64")
+                e = float(int((a * b).sum()))
+                if toks[0] != f2h(e):
+                    fail(i, key, "dot of two length-%d small-integer vectors is %s = %r, the exact value is %r (difference %r: terms were dropped or added)" % (
+                        n, toks[0], h2f(toks[0]), e, h2f(toks[0]) - e), f2h(e))
+            elif sub == "infnorm":
+                r = int(t[3])
+                d = long_data(t[4], int(t[5]), n).astype("int64")
+                e = float(int(abs(d).reshape(r, n // r).sum(axis=1).max()))
+                if toks[0] != f2h(e):
+                    fail(i, key, "inf_norm of a %dx%d small-integer matrix is %s, the exact value is %r" % (r, n // r, toks[0], e), f2h(e))
+            elif sub == "ew":
+                op = t[2]
+                x = long_data(t[3], int(t[4]), n)
+                y = long_data(t[5], int(t[6]), n)
+                r = {"vadd": lambda: x + y, "vsub": lambda: x - y, "vmul": lambda: x * y, "svmul": lambda: 3.0 * x, "svsub": lambda: 100.0 - x,
+                     "vssub": lambda: x - 2.0, "vsdiv": lambda: x / 4.0, "asgadd": lambda: x + y, "asgsmul": lambda: x * 5.0,
+                     "abs": lambda: abs(x), "powi3": lambda: x * x * x, "powi2": lambda: x * x, "neg": lambda: -x, "mmadd": lambda: x + y}[op]()
+                e = long_digest(r)
+                if " ".join(toks) != e:
+                    fail(i, key, "element-wise %s on length %d: (len, digest, first, last) = %s, expected %s" % (op, n, " ".join(toks), e), e)
+            continue
         if kind in ("bin", "asg"):
             op = t[1]
             j = 4 if kind == "bin" else 3
